@@ -367,11 +367,26 @@ func c23Gen(rng *rand.Rand, tier string, w *bufio.Writer) {
 		}
 		// injected failures (each on the combinations where the step exists)
 		nChunks := len(fo)
-		faults := []string{"write:1", "write:2", "write:3", "verify"}
-		if nChunks > 1 { // at least one chunk file besides the meta file
+		faults := []string{"write:1", "write:2", "write:3", "verify", "meta", "rmdir"}
+		nData := nChunks - 1 // chunk files besides the meta file
+		if nData >= 1 {
 			faults = append(faults, "load")
+			ks := []int{nData - 1}
+			if tier == "thorough" {
+				ks = nil
+				for k := 0; k < nData && k < 12; k++ {
+					ks = append(ks, k)
+				}
+			}
+			for _, k := range ks {
+				faults = append(faults, fmt.Sprintf("load:%d", k), fmt.Sprintf("read:%d", k))
+			}
 		}
-		for k := 0; k < nChunks && k < 3; k++ {
+		maxUnlink := 3
+		if tier == "thorough" {
+			maxUnlink = 12
+		}
+		for k := 0; k < nChunks && k < maxUnlink; k++ {
 			faults = append(faults, fmt.Sprintf("unlink:%d", k))
 		}
 		if tier != "thorough" && !(ci < 24 && ci%3 == 1) {
@@ -386,7 +401,7 @@ func c23Gen(rng *rand.Rand, tier string, w *bufio.Writer) {
 				if ft == "verify" && c[0] == 0 {
 					continue
 				}
-				if strings.HasPrefix(ft, "unlink") && c[1] == 0 {
+				if (strings.HasPrefix(ft, "unlink") || ft == "rmdir") && c[1] == 0 {
 					continue
 				}
 				fmt.Fprintf(w, "mig %s v=%d d=%d r=%d fault=%s %s\n", root, c[0], c[1], c[2], ft, tail)
@@ -493,6 +508,22 @@ func c23Child(dataPath, swamp string, v, d, r string, fault string, files []stri
 	switch {
 	case fault == "load":
 		st = []string{"-e", "trace=openat", "-e", "inject=openat:error=EIO:when=1", "-P", filepath.Join(swamp, chunks[0])}
+	case strings.HasPrefix(fault, "load:"), strings.HasPrefix(fault, "read:"):
+		// the k-th chunk cannot be opened / cannot be read
+		var k int
+		fmt.Sscanf(fault[5:], "%d", &k)
+		if k >= len(chunks) {
+			k = len(chunks) - 1
+		}
+		if strings.HasPrefix(fault, "load:") {
+			st = []string{"-e", "trace=openat", "-e", "inject=openat:error=EIO:when=1", "-P", filepath.Join(swamp, chunks[k])}
+		} else {
+			st = []string{"-e", "trace=read,pread64", "-e", "inject=read,pread64:error=EIO:when=1", "-P", filepath.Join(swamp, chunks[k])}
+		}
+	case fault == "meta": // the meta file (the only place the swamp name is stored) cannot be opened
+		st = []string{"-e", "trace=openat", "-e", "inject=openat:error=EIO:when=1+", "-P", filepath.Join(swamp, metadata.MetaFile)}
+	case fault == "rmdir": // every file goes, removing the folder itself fails (both the unlink and the rmdir attempt)
+		st = []string{"-e", "trace=unlinkat,unlink,rmdir", "-e", "inject=unlinkat,unlink,rmdir:error=EIO:when=1+", "-P", swamp}
 	case fault == "write:1": // the file header, inside NewFileWriterWithName
 		st = []string{"-e", "trace=write,pwrite64", "-e", "inject=write,pwrite64:error=EIO:when=1", "-P", hyd}
 	case fault == "write:2": // the swamp name after the header, still inside NewFileWriterWithName
@@ -603,7 +634,7 @@ func c23One(scratch string, n int, line string) string {
 	if fault == "none" {
 		res = c23Migrate(filepath.Join(root, "data"), v == "1", d == "1", r == "1")
 	} else {
-		if fault == "load" && len(chunks) == 0 {
+		if (fault == "load" || strings.HasPrefix(fault, "load:") || strings.HasPrefix(fault, "read:")) && len(chunks) == 0 {
 			fault = "none"
 			res = c23Migrate(filepath.Join(root, "data"), v == "1", d == "1", r == "1")
 		} else {
